@@ -41,6 +41,11 @@ using L_K18 = List<D<P, u8>, D<P, u8, 2>, D<F, u8>>;
 using L_K19 = List<D<F, u8>>;
 using L_K20 = List<D<F, u8>, D<F, u8>>;
 using L_K21 = List<D<F, u32>, D<P, u32>>;
+// a FixedSize parameter enclosed by plain ones, all byte-wise comparable, no padding: one run from field 0 to field 2
+using L_K22 = List<D<P, u8>, D<F, u8>, D<P, u8>>;
+using L_K23 = List<D<P, u32>, D<F, u32>, D<P, u32>>;
+// a FixedSize span and a VaryingSize span (with its count) in one byte-wise run
+using L_K24 = List<D<F, u8>, D<P, u8>, D<V, u8>>;
 }  // namespace hx
 
 #define HX_CAT_(a, b) a##b
@@ -470,6 +475,58 @@ static void element_level(const std::vector<Elem>& E, std::size_t fixed, std::ve
 }
 
 // ---------------------------------------------------------------- vector level
+// ---------------------------------------------------------------- element level across different fixed sizes
+// every element over the value domain with fixed sizes `fa` against every element with fixed sizes `fb`: references and
+// elements of two vectors (== against the model; < only for the axioms that need no model of the order)
+template <class SA, class SB>
+static void element_cross(std::size_t fa, std::size_t fb, int maxlen)
+{
+    const auto Ea = all_elements(fa, maxlen), Eb = all_elements(fb, maxlen);
+    auto va = SA::build(Ea, {}, fa, 0, 0, JUNK_ZERO, false);
+    auto vb = SB::build(Eb, {}, fb, 1, 1, JUNK_DISTINCT, false);
+    S.vectors_built += 2;
+    const auto& a = va;
+    const auto& b = vb;
+    constexpr bool copyable = LS::ALL_COPYABLE && HAVE_ELEM_COPY;
+    for (std::size_t p = 0; p < Ea.size(); ++p)
+        for (std::size_t q = 0; q < Eb.size(); ++q)
+        {
+            ++S.element_pairs;
+            S.comparisons += 5;
+            const bool mq = model_eq(Ea[p], Eb[q]);
+            if (!mq) ++S.nontrivial;
+            const auto ra = a[p];
+            const auto rb = b[q];
+            const bool req = ra == rb;
+            if (req != mq)
+                report("C13", "cmp", "ref==:model", "reference == is %d for %s vs %s (fixed sizes %zu vs %zu)", int(req), to_string(Ea[p]).c_str(),
+                       to_string(Eb[q]).c_str(), fa, fb);
+            if ((rb == ra) != req) report("C13", "cmp", "ref==:asymmetric", "a == b differs from b == a (different fixed sizes)");
+            if ((ra != rb) == req) report("C13", "cmp", "ref!=:negation", "reference != is not the negation of ==");
+            const bool lt = ra < rb, gt = rb < ra;
+            if (lt && gt) report("C14", "cmp", "ref<:symmetric", "a < b and b < a for %s vs %s (different fixed sizes)", to_string(Ea[p]).c_str(), to_string(Eb[q]).c_str());
+            if ((lt || gt) && req) report("C14", "cmp", "ref<:lt-and-eq", "a < b and a == b for %s vs %s (different fixed sizes)", to_string(Ea[p]).c_str(), to_string(Eb[q]).c_str());
+            if constexpr (copyable)
+            {
+                S.comparisons += 8;
+                const typename SA::El xa{ra};
+                const typename SB::El xb{rb};
+                bool xeq = (xa == rb) == mq && (ra == xb) == mq && (rb == xa) == mq && (xb == ra) == mq;
+                bool xlt = (xa < rb) == lt && (ra < xb) == lt && (xb < ra) == gt && (rb < xa) == gt;
+                if constexpr (std::is_same_v<typename SA::El, typename SB::El>)
+                {
+                    xeq = xeq && (xa == xb) == mq && (xb == xa) == mq;
+                    xlt = xlt && (xa < xb) == lt && (xb < xa) == gt;
+                }
+                if (!xeq)
+                    report("C13", "cmp", "elem==:model", "element == is wrong for %s vs %s (fixed sizes %zu vs %zu)", to_string(Ea[p]).c_str(),
+                           to_string(Eb[q]).c_str(), fa, fb);
+                if (!xlt) report("C14", "cmp", "elem<:operand-kind", "element < differs from reference < (different fixed sizes)");
+            }
+            if (!env::viols().empty()) flush_viols(std::string("elements ") + to_string(Ea[p]) + " vs " + to_string(Eb[q]) + " (different fixed sizes)");
+        }
+}
+
 struct VSpec
 {
     std::vector<int> seq;  // indices into the representative elements
@@ -688,6 +745,8 @@ int main(int argc, char** argv)
             std::vector<Elem> R{E[0], E[1], E[E.size() - 1], E[E.size() / 2]};
             std::vector<std::vector<int>> rlt(R.size(), std::vector<int>(R.size(), 0));
             vector_level<SideA, SideB>(R, rlt, fa, fb, 2);
+            element_cross<SideA, SideB>(fa, fb, maxlen);
+            element_cross<SideA, SideA>(fa, fb, maxlen);
         }
     }
     const double wall = std::chrono::duration<double>(std::chrono::steady_clock::now() - t0).count();
